@@ -407,7 +407,7 @@ def streaming(ctx):
                       'lmethod.get_knee', 'dfdt.get_knee', 'linear_fit.linear_fit_points', 'linear_fit.r2_points',
                       'convex_hull.graham_scan_lower', 'knee_ranking.rank', 'linear_fit.linear_fit', 'metrics.rmse'],
                      rng.randint(1, 4))
-    for _ in range(rng.randint(2, 4)):
+    for rnd in range(rng.randint(2, 4)):
         src = rng.choice(same)
         f = p.call('caller.fill', R(buf), P(src), F(rng.choice([1.0, 1.0, 0.5, 2.0, 3.0])), rng.random() < 0.3)
         p.steps[-1]['nodup'] = True
@@ -426,7 +426,8 @@ def streaming(ctx):
             else:
                 p.call(fn, b)
             p.steps[-1]['nodup'] = True
-            p.steps[-1]['probe'] = True
+            if rnd >= 1:          # the first fill meets a fresh buffer: nothing stale can be seen yet
+                p.steps[-1]['probe'] = True
     return p.out()
 
 
